@@ -360,3 +360,213 @@ func TestVerif_C10_TrailingElidedAtChoice(t *testing.T) {
 	}
 	res.emit(t)
 }
+
+// ---- C13 / C01: an alternative that parses itself and gives up after reading ahead ----
+
+type r7Pair struct {
+	K, V string
+}
+
+func (p *r7Pair) Parse(lex *lexer.PeekingLexer) error {
+	k := lex.Peek()
+	if k.EOF() || k.Value == "=" {
+		return participle.NextMatch
+	}
+	lex.Next()
+	if eq := lex.Peek(); eq.Value != "=" {
+		return participle.NextMatch // read one token ahead, then declined
+	}
+	lex.Next()
+	v := lex.Peek()
+	if v.EOF() {
+		return participle.NextMatch // read two tokens ahead, then declined
+	}
+	lex.Next()
+	p.K, p.V = k.Value, v.Value
+	return nil
+}
+
+type r7Item struct {
+	Pair *r7Pair `  @@`
+	Word string  `| @Ident`
+}
+type r7Items struct {
+	Items []*r7Item `@@*`
+	Rest  []string  `@( Ident | "=" )*`
+}
+
+func TestVerif_C13C01_ParseableAlternative(t *testing.T) {
+	res := &xResult{Check: "Parseable alternative", Property: "C13 C01", Exhaustive: true,
+		Bound: "one grammar whose first alternative is a Parseable that reads up to two tokens before declining with NextMatch, all inputs of <= 5 tokens over {a, b, =}, lookahead 0, 1, 2, 3, MaxLookahead, unlimited",
+		Rule: "(input, lookahead) pairs; non-trivial = the Parseable declines after reading ahead"}
+	lex := lexer.MustSimple([]lexer.SimpleRule{{Name: "Ident", Pattern: `[a-z]+`}, {Name: "Punct", Pattern: `=`}, {Name: "whitespace", Pattern: `\s+`}})
+	var inputs [][]string
+	var rec func(p []string)
+	rec = func(p []string) {
+		inputs = append(inputs, p)
+		if len(p) == 5 {
+			return
+		}
+		for _, a := range []string{"a", "b", "="} {
+			rec(append(p[:len(p):len(p)], a))
+		}
+	}
+	rec(nil)
+	// the meaning: items are read greedily, a pair where "x = y" stands, else a word; the rest takes what is left
+	ref := func(ws []string) string {
+		var items []string
+		i := 0
+		for i < len(ws) {
+			if ws[i] != "=" && i+2 < len(ws) && ws[i+1] == "=" {
+				items = append(items, "("+ws[i]+"="+ws[i+2]+")")
+				i += 3
+			} else if ws[i] != "=" {
+				items = append(items, ws[i])
+				i++
+			} else {
+				break
+			}
+		}
+		return fmt.Sprint(items, ws[i:])
+	}
+	for _, k := range []int{0, 1, 2, 3, participle.MaxLookahead, -1} {
+		p, err := participle.Build[r7Items](participle.Lexer(lex), participle.UseLookahead(k))
+		if err != nil {
+			res.violate("Build: %v", err)
+			break
+		}
+		for _, ws := range inputs {
+			res.Evaluations++
+			in := strings.Join(ws, " ")
+			want := ref(ws)
+			if strings.Contains(in, "=") {
+				res.Distinct++
+			}
+			func() {
+				defer func() {
+					if r := recover(); r != nil {
+						res.violate("lookahead %d, input %q: panic: %v", k, in, r)
+					}
+				}()
+				v, err := p.ParseString("", in)
+				if err != nil {
+					res.violate("lookahead %d, input %q: error %v; the grammar accepts every input (%s)", k, in, err, want)
+					return
+				}
+				var items []string
+				for _, it := range v.Items {
+					if it.Pair != nil {
+						items = append(items, "("+it.Pair.K+"="+it.Pair.V+")")
+					} else {
+						items = append(items, it.Word)
+					}
+				}
+				rest := v.Rest
+				if rest == nil {
+					rest = []string{}
+				}
+				if got := fmt.Sprint(items, rest); got != want {
+					res.violate("lookahead %d, input %q: parsed as %s, the grammar means %s", k, in, got, want)
+				}
+			}()
+		}
+	}
+	res.emit(t)
+}
+
+// ---- C18: a selection that is empty (however it was computed) means every token ----
+
+func TestVerif_C18_EmptySelection(t *testing.T) {
+	res := &xResult{Check: "empty mapper selection", Property: "C18", Exhaustive: true,
+		Bound: "Map and Upper with no symbols, with a nil slice and with an empty non-nil slice, text/scanner and stateful lexer, one input",
+		Rule: "(lexer, option form) pairs; all non-trivial"}
+	st := lexer.MustSimple([]lexer.SimpleRule{{Name: "Ident", Pattern: `[a-z]+`}, {Name: "Int", Pattern: `\d+`}, {Name: "String", Pattern: `"[^"]*"`}, {Name: "Punct", Pattern: `[(),]`}, {Name: "whitespace", Pattern: `\s+`}})
+	var nilSel []string
+	forms := map[string][]string{"no symbols": nil, "nil slice": nilSel, "empty slice": make([]string, 0, 4)}
+	for lname, opts := range map[string][]participle.Option{"text/scanner": nil, "stateful": {participle.Lexer(st)}} {
+		for fname, sel := range forms {
+			res.Evaluations++
+			res.Distinct++
+			n := 0
+			count := func(tk lexer.Token) (lexer.Token, error) {
+				if !tk.EOF() {
+					n++
+				}
+				return tk, nil
+			}
+			p, err := participle.Build[r6Call](append(append([]participle.Option{}, opts...), participle.Map(count, sel...), participle.Upper(sel...))...)
+			if err != nil {
+				res.violate("%s, %s: Build: %v", lname, fname, err)
+				continue
+			}
+			v, err := p.ParseString("", `f(a, b)`)
+			if err != nil {
+				res.violate("%s, %s: %v", lname, fname, err)
+				continue
+			}
+			if n != 6 {
+				res.violate("%s lexer, Map with %s: the mapper saw %d of the 6 tokens", lname, fname, n)
+			}
+			if v.Name != "F" || fmt.Sprint(v.Args) != "[A B]" {
+				res.violate("%s lexer, Upper with %s: parsed %s %v, want F [A B]", lname, fname, v.Name, v.Args)
+			}
+		}
+	}
+	res.emit(t)
+}
+
+// ---- C19: Union and ParseTypeWith together (a custom production referenced from a union member) ----
+
+type r7Val interface{ r7Val() }
+type r7Custom interface{ r7Custom() }
+type r7CustomV struct{ S string }
+
+func (r7CustomV) r7Custom() {}
+
+type r7Wrap struct {
+	C r7Custom `"<" @@ ">"`
+}
+type r7Plain2 struct {
+	W string `@Ident`
+}
+type r7Doc struct {
+	Vals []r7Val `@@*`
+}
+
+func (r7Wrap) r7Val()   {}
+func (r7Plain2) r7Val() {}
+
+func r7ParseCustom(lex *lexer.PeekingLexer) (r7Custom, error) {
+	t := lex.Peek()
+	if t.EOF() || t.Value == ">" {
+		return nil, participle.NextMatch
+	}
+	lex.Next()
+	return r7CustomV{S: t.Value}, nil
+}
+
+func TestVerif_C19_UnionWithCustom(t *testing.T) {
+	res := &xResult{Check: "Union with ParseTypeWith", Property: "C19", Exhaustive: true,
+		Bound: "one grammar whose union member captures a ParseTypeWith production, the two options in both orders, one input",
+		Rule: "option orders; all non-trivial"}
+	union := participle.Union[r7Val](r7Wrap{}, r7Plain2{})
+	custom := participle.ParseTypeWith(r7ParseCustom)
+	for name, opts := range map[string][]participle.Option{"Union first": {union, custom}, "ParseTypeWith first": {custom, union}} {
+		res.Evaluations++
+		res.Distinct++
+		p, err := participle.Build[r7Doc](opts...)
+		if err != nil {
+			res.violate("%s: Build rejects a valid grammar: %v", name, err)
+			continue
+		}
+		v, err := p.ParseString("", "a <b> c")
+		if err != nil || len(v.Vals) != 3 {
+			res.violate("%s: ParseString: %v %v", name, v, err)
+			continue
+		}
+		if w, ok := v.Vals[1].(r7Wrap); !ok || w.C != (r7CustomV{S: "b"}) {
+			res.violate("%s: second value is %#v", name, v.Vals[1])
+		}
+	}
+	res.emit(t)
+}
